@@ -171,6 +171,19 @@ func proveSite(p *core.Pather, s panicSite) string {
 			if bo, ok := x.High.(*ssa.BinOp); ok && bo.Op == token.ADD {
 				swapped = "(" + p.Path(bo.Y) + "+" + p.Path(bo.X) + ")"
 			}
+			// the same guard spelt by subtraction: X > len(base) - lo, with hi = lo + X
+			if bo, ok := x.High.(*ssa.BinOp); ok && bo.Op == token.ADD && lo != "" {
+				for _, pair := range [][2]ssa.Value{{bo.X, bo.Y}, {bo.Y, bo.X}} {
+					if p.Path(pair[0]) != lo {
+						continue
+					}
+					xs := p.Path(pair[1])
+					left := "(" + ln + "-" + lo + ")"
+					if guardHolds(conds, "("+xs+">"+left+")=F", "("+xs+"<="+left+")=T", "("+left+"<"+xs+")=F", "("+left+">="+xs+")=T") && guardFresh(p, s.in, lo) {
+						return "slice guarded by X <= len(base) - lo (no cursor movement between the guard's reading of lo and the slice)"
+					}
+				}
+			}
 			for _, h := range []string{hi, swapped} {
 				if guardHolds(conds, "("+h+">"+ln+")=F", "("+h+"<="+ln+")=T") {
 					// low bound: lo is a summand of hi (lo <= hi for unsigned offsets) or absent
@@ -246,6 +259,7 @@ func r14guard(c *core.Ctx) {
 			continue // logging helpers: only compiler-built argument literals
 		}
 		p := core.NewPather(f)
+		p.Inline = true // one-line helpers such as bytesLeft() render as their body
 		seen := map[string]int{}
 		for _, s := range collectSites(f, p) {
 			if s.kind == "make" {
@@ -334,6 +348,7 @@ func r14cursor(c *core.Ctx) {
 	n := 0
 	for _, f := range decoderFuncs(c) {
 		p := core.NewPather(f)
+		p.Inline = true
 		ord := 0
 		for _, b := range f.Blocks {
 			for _, in := range b.Instrs {
@@ -371,6 +386,18 @@ func r14cursor(c *core.Ctx) {
 							continue
 						}
 						bo, isBo := iff.Cond.(*ssa.BinOp)
+						if isBo && bo.Op == token.GTR && p.Path(bo.Y) == "(call:builtin.len(p0.bytes)-p0.byteOffset)" {
+							// X > len(bytes) - byteOffset refused, cursor read fresh: byteOffset + X <= len(bytes)
+							g := core.Linearize(p, bo.X)
+							if g.T == nil {
+								g.T = map[string]int64{}
+							}
+							g.T["p0.byteOffset"]++
+							if g.String() == lf.String() && guardFreshAt(p, id, x, st, "p0.byteOffset") {
+								why = "+= X after the guard refused X > len(bytes) - byteOffset"
+							}
+							continue
+						}
 						if !isBo || bo.Op != token.GTR || p.Path(bo.Y) != "call:builtin.len(p0.bytes)" {
 							continue
 						}
@@ -628,4 +655,171 @@ func r14shift(c *core.Ctx) {
 	if n < 10 {
 		c.Undecided("R14.shift found only %d shifts in the decoder (expected about 30)", n)
 	}
+}
+
+// guardFresh: a bounds guard that reads the cursor (lo = p0.byteOffset) is only worth
+// something if the cursor cannot move between that reading and the guarded use. The
+// Pather renders two loads of the same field identically, so this is checked on the
+// instructions: every load of the field named by lo that feeds the condition of the
+// dominating If must sit in the If's block with no store to that field and no call
+// that receives the cursor's owner after it, and the use must be in the block the If
+// leads to, again with nothing moving the cursor before it.
+func guardFresh(p *core.Pather, use ssa.Instruction, lo string) bool {
+	if !strings.HasSuffix(lo, ".byteOffset") {
+		return true // not a cursor
+	}
+	owner := strings.TrimSuffix(lo, ".byteOffset")
+	moves := func(in ssa.Instruction) bool {
+		switch x := in.(type) {
+		case *ssa.Store:
+			return p.Path(x.Addr) == lo
+		case ssa.CallInstruction:
+			for _, a := range x.Common().Args {
+				if p.Path(a) == owner {
+					n := core.CalleeName(x.Common())
+					if strings.HasSuffix(n, ".bytesLeft") {
+						return false // read-only helper
+					}
+					return true
+				}
+			}
+		}
+		return false
+	}
+	ub := use.Block()
+	id := ub.Idom()
+	if id == nil || len(ub.Preds) != 1 || ub.Preds[0] != id {
+		return false
+	}
+	if _, isIf := id.Instrs[len(id.Instrs)-1].(*ssa.If); !isIf {
+		return false
+	}
+	// nothing moves the cursor in the use block before the use
+	for _, in := range ub.Instrs {
+		if in == use {
+			break
+		}
+		if moves(in) {
+			return false
+		}
+	}
+	// in the guard block: after the last cursor movement, the condition's cursor readings
+	last := -1
+	for i, in := range id.Instrs {
+		if moves(in) {
+			last = i
+		}
+	}
+	iff := id.Instrs[len(id.Instrs)-1].(*ssa.If)
+	ok := true
+	seen := map[ssa.Value]bool{}
+	var walk func(v ssa.Value, d int)
+	walk = func(v ssa.Value, d int) {
+		if v == nil || seen[v] || d > 10 {
+			return
+		}
+		seen[v] = true
+		reads := false
+		switch y := v.(type) {
+		case *ssa.UnOp:
+			reads = y.Op == token.MUL && p.Path(y.X) == lo
+		case *ssa.Call:
+			reads = strings.HasSuffix(core.CalleeName(&y.Call), ".bytesLeft")
+		}
+		if reads {
+			in := v.(ssa.Instruction)
+			if in.Block() != id || core.InstrIndex(in) < last {
+				ok = false
+			}
+			return
+		}
+		if in, isIn := v.(ssa.Instruction); isIn {
+			for _, op := range in.Operands(nil) {
+				if *op != nil {
+					walk(*op, d+1)
+				}
+			}
+		}
+	}
+	walk(iff.Cond, 0)
+	return ok
+}
+
+// guardFreshAt: as guardFresh, for a guard block id whose false side x leads to the
+// use (not necessarily in x's first block: the blocks from x down to the use must be
+// a straight dominator chain without cursor movement before the use).
+func guardFreshAt(p *core.Pather, id, x *ssa.BasicBlock, use ssa.Instruction, lo string) bool {
+	owner := strings.TrimSuffix(lo, ".byteOffset")
+	moves := func(in ssa.Instruction) bool {
+		switch y := in.(type) {
+		case *ssa.Store:
+			return p.Path(y.Addr) == lo
+		case ssa.CallInstruction:
+			for _, a := range y.Common().Args {
+				if p.Path(a) == owner {
+					return !strings.HasSuffix(core.CalleeName(y.Common()), ".bytesLeft")
+				}
+			}
+		}
+		return false
+	}
+	// from the use's block up to x: every block has one predecessor, nothing moves the cursor before the use
+	for b := use.Block(); ; b = b.Idom() {
+		for _, in := range b.Instrs {
+			if in == use {
+				break
+			}
+			if moves(in) {
+				return false
+			}
+		}
+		if b == x {
+			break
+		}
+		if b.Idom() == nil || len(b.Preds) != 1 {
+			return false
+		}
+	}
+	last := -1
+	for i, in := range id.Instrs {
+		if moves(in) {
+			last = i
+		}
+	}
+	iff, isIf := id.Instrs[len(id.Instrs)-1].(*ssa.If)
+	if !isIf {
+		return false
+	}
+	ok := true
+	seen := map[ssa.Value]bool{}
+	var walk func(v ssa.Value, d int)
+	walk = func(v ssa.Value, d int) {
+		if v == nil || seen[v] || d > 10 {
+			return
+		}
+		seen[v] = true
+		reads := false
+		switch y := v.(type) {
+		case *ssa.UnOp:
+			reads = y.Op == token.MUL && p.Path(y.X) == lo
+		case *ssa.Call:
+			reads = strings.HasSuffix(core.CalleeName(&y.Call), ".bytesLeft")
+		}
+		if reads {
+			in := v.(ssa.Instruction)
+			if in.Block() != id || core.InstrIndex(in) < last {
+				ok = false
+			}
+			return
+		}
+		if in, isIn := v.(ssa.Instruction); isIn {
+			for _, op := range in.Operands(nil) {
+				if *op != nil {
+					walk(*op, d+1)
+				}
+			}
+		}
+	}
+	walk(iff.Cond, 0)
+	return ok
 }
